@@ -11,7 +11,7 @@ VARIABLES l, tree
 vars == <<l, tree>>
 Ev == Log[l]
 Init == l = 1 /\ tree = InitTree
-EvInit == Ev.e = "Init" /\ tree' = InitTree
+EvInit == Ev.e \in {"Init", "Reset"} /\ tree' = InitTree
 EvUpd == /\ Ev.e = "Upd"
          /\ IF CanUpdate(tree, Ev.x)
             THEN Ev.ok = TRUE /\ tree' = Update(tree, Ev.x) /\ Ev.path = EncodePath(tree', Ev.x)
